@@ -141,6 +141,8 @@ def mk_css(K, first, second, rot):
         for d in items:
             if d.kind == 'decl' and d.ve <= pos <= d.semi:
                 return 'skip'
+            if d.kind == 'stmt' and d.name_end <= pos <= d.semi:
+                return 'skip'
         rules = [r for r in items if r.kind == 'rule' and r.start <= pos <= r.end]
         strict = [r for r in items if r.kind == 'rule' and r.start < pos < r.end]
         sec = get_css_section(doc, pos, True)
@@ -151,6 +153,8 @@ def mk_css(K, first, second, rot):
                 return 'section_is_not_the_innermost_rule'
             decls = [c for c in r.children if c.kind == 'decl']
             props = sec.properties or []
+            if any([c.kind == 'stmt' for c in r.children]):
+                decls = props = []        # how value-less statements show up among the properties is not stated
             if len(props) != len(decls):
                 return 'direct_declarations_missing_or_extra'
             for p, d in zip(props, decls):
@@ -172,7 +176,7 @@ def mk_css(K, first, second, rot):
         m = select_item_css(doc, pos)
         # with the caret strictly inside a declaration or a selector, "next" is the remaining part of that item - the
         # property only speaks of whole items, so such positions are not asserted
-        inside_item = any([it.start < pos < (it.end if it.kind == 'decl' else it.brace + 1) for it in items])
+        inside_item = any([it.start < pos < (it.brace + 1 if it.kind == 'rule' else it.end) for it in items])
         if inside_item:
             pass
         elif nxt:
@@ -184,6 +188,8 @@ def mk_css(K, first, second, rot):
                     e -= 1
                 if m is None or (m.start, m.end, [tuple(x) for x in m.ranges]) != (it.start, e, [(it.start, e)]):
                     return 'next_item_is_not_the_selector'
+            elif it.kind == 'stmt':
+                pass     # a value-less statement is neither selector nor declaration: whether "next" stops at it is not stated
             else:
                 exp = [(it.start, it.end), (it.vs, it.ve)]
                 for t in it.tokens:
@@ -204,6 +210,9 @@ def mk_css(K, first, second, rot):
                     e -= 1
                 if m is None or (m.start, m.end, [tuple(x) for x in m.ranges]) != (it.start, e, [(it.start, e)]):
                     return 'previous_item_is_not_the_selector'
+            elif it.kind == 'stmt':
+                if m is None or (m.start, m.end, [tuple(x) for x in m.ranges]) != (it.start, it.name_end, [(it.start, it.name_end)]):
+                    return 'previous_item_is_not_the_statement'
             else:
                 exp = [(it.start, it.end), (it.vs, it.ve)]
                 for t in it.tokens:
@@ -231,7 +240,7 @@ def mk_css(K, first, second, rot):
                     return 'skip'
             if not C.complete(ks):
                 return 'skip'
-            doc, items = C.build(ks, rot)
+            doc, items = C.build(ks, rot, stmts=True)
             return check(doc, items, pos, wrong)
         return h
     E = C.END
